@@ -6,6 +6,7 @@ from ..recorder import Rec, CID, push, observed
 from .c01 import script_tree
 from .c02 import msg_of
 from hypothesis import strategies as st
+from ..gen import dict_order as gen_dict_order
 
 F, T = env.F, env.T
 C = O.CODES
@@ -19,7 +20,7 @@ RULE = ('Hypothesis cases over internal seeds, committed scripts (recorder prefi
         '32-byte non-point, empty script - all as pure-push witnesses) and adversarial witnesses of the C01 family for '
         'native vs non-native. Oracles: root = P + clamp(sha256(P || sha256(S)))*G recomputed with the pure-Python '
         'reference for make_taproot_lock / make_nonnative_taproot_lock / make_graftap_lock; key path true <=> RFC 8032 '
-        'valid under the root with permitted flags; committed script starts (recording contract) <=> the pair recomputes '
+        'valid under the root with permitted flags (an accepted key spend is replayed in the same process with a covered sigfield changed: rejected; sigfield dicts are filled in a drawn order); committed script starts (recording contract) <=> the pair recomputes '
         'to the root; builder witnesses unlock; native verdict == non-native verdict. non-trivial = a corruption or an '
         'adversarial-witness feature is present, or flag != 0; distinct by case parameters.')
 ASSUMPTIONS = ['vt/ed25519_ref.py for point arithmetic and signature validity', 'native vs non-native is compared at the '
@@ -249,6 +250,15 @@ def check_taproot(case):
                 fails.append(('taproot/%s/non-permitted-flag-accepted' % lk, 'flag %02x allowed %02x' % (flag, allowed)))
             if seen:
                 fails.append(('taproot/%s/key-path-runs-a-script' % lk, '%r' % (seen,)))
+            # the accepted witness again, in the same process, with one covered sigfield changed: the signature does not
+            # cover these contents (no verdict is remembered per signature)
+            cov = [k for k in sorted(fields) if not (flag >> (int(k[-1]) - 1)) & 1]
+            if ok and cov:
+                f2 = dict(fields)
+                f2[cov[k1 % len(cov)]] = fields[cov[k1 % len(cov)]] + b'!'
+                info['replayed'] = True
+                if auth([w, lock], f2)[0]:
+                    fails.append(('taproot/%s/key-spend-accepted-for-other-sigfield-contents' % lk, 'changed %s' % cov[k1 % len(cov)]))
         elif kind.startswith('sig-') or kind == 'root-bitflip':
             if ok:
                 fails.append(('taproot/%s/key-path-accepts-%s' % (lk, kind), 'k1=%d' % k1))
@@ -351,7 +361,7 @@ KINDS = ['keyspend', 'keyspend', 'scriptspend', 'scriptspend', 'sig-internal-key
 @st.composite
 def fields_st(draw):
     f = {'sigfield%d' % i: draw(st.binary(min_size=1, max_size=10)) for i in range(1, 9) if draw(st.integers(0, 2)) == 0}
-    return f or {'sigfield1': b'msg'}
+    return gen_dict_order(draw, f) if f else {'sigfield1': b'msg'}
 
 
 @st.composite
@@ -386,6 +396,8 @@ def task_main(ctx):
         nt = c['kind'] not in ('keyspend', 'scriptspend') or c['flag'] != 0
         ctx.case({k: v for k, v in c.items()}, nt)
         ctx.count('kind:' + c['kind'])
+        if info.get('replayed'):
+            ctx.count('keyspend:accepted witness replayed under changed sigfields')
         if c['kind'] == 'scriptspend' and c['body'] in CALL_BODIES:
             ctx.count('scriptspend:committed script calls a function' + (' the witness defined' if c.get('pre', 0) % len(PRES2) >= 3 else ' nobody defined'))
         for s, d in fails:
